@@ -96,6 +96,14 @@ CHECKS.update({
          True),
 })
 
+CHECKS.update({
+ "C13": ("enum+xs", "model_checking",
+         "bounded-exhaustive enumeration of encoder-produced readout frames and of frame sequences (fatal-lane memory as a state machine over normal/fatal/absent per lane) through the real LinkValidator in stave mode, judged by the documented rules",
+         "Frames from the independent ALPIDE encoder through a real LinkValidator (check all its-stave): inner barrel all 255 lane subsets of size <= 4 (accepted iff one of the fixed groups), chip id / chip count / bunch-counter variants; every hit-content sequence of length <= 2 (3 thorough) over a 10-symbol alphabet whose bytes imitate chip headers, trailers, empty frames and APEs, on a valid and on an invalid frame, with the frame split over pages and a no-data TDH in front in rotation (verdict and ALPIDE readout-flag counters must not vary); middle/outer layers 3..6: legal set, one lane missing, one extra, 6 / 8 chips, permuted order, chip or lane bunch counter deviating, with and without custom chip count/order; every sequence of <= 2 (3 thorough) frames in which each of the three lanes is normal / announces a fatal state / is absent (702 sequences quick). Per frame the set of codes {E72,E73,E74,E75} reported at the frame's start offset must equal the documented verdict; frame-level messages anywhere else are violations.",
+         "Abstains on frames in which a lane that announced a fatal state is itself present (the documents do not say how it is counted). Hit values are from a finite adversarial alphabet, not all values.",
+         True),
+})
+
 NOT_YET = {
 }
 
